@@ -1,0 +1,28 @@
+//go:build verif
+
+package set
+
+import "sort"
+
+// VerifBuckets exposes the bucket layout of a set for verification: bucket ids
+// in ascending order and, for each, the members in slice order.
+func VerifBuckets[T any](s Set[T]) (ids []int, buckets [][]T) {
+	for id := range s.vals {
+		ids = append(ids, id)
+	}
+	sort.Ints(ids)
+	for _, id := range ids {
+		buckets = append(buckets, s.vals[id])
+	}
+	return ids, buckets
+}
+
+// VerifBucketCaps reports len and cap of every bucket slice (ascending id).
+func VerifBucketCaps[T any](s Set[T]) (lens, caps []int) {
+	ids, buckets := VerifBuckets(s)
+	for i := range ids {
+		lens = append(lens, len(buckets[i]))
+		caps = append(caps, cap(buckets[i]))
+	}
+	return
+}
